@@ -61,13 +61,14 @@ bool RequestImpl::add(const char* request) {
         m_request.resize(pos);  // remove "HTTP/x.x" suffix
       }
       pos = 0;
-      while ((pos=m_request.find('%', pos)) != string::npos && pos+2 <= m_request.length()) {
+      while ((pos=m_request.find('%', pos)) != string::npos && pos+2 < m_request.length()) {
         unsigned int value1, value2;
-        if (sscanf("%1x%1x", m_request.c_str()+pos+1, &value1, &value2) < 2) {
+        if (sscanf(m_request.c_str()+pos+1, "%1x%1x", &value1, &value2) < 2) {
           break;
         }
         m_request[pos] = static_cast<char>(((value1&0x0f) << 4) | (value2&0x0f));
         m_request.erase(pos+1, 2);
+        pos++;  // do not decode the decoded character again
       }
     } else if (pos+1 == m_request.length()) {
       m_request.resize(pos);  // reduce to complete lines
